@@ -30,6 +30,7 @@ CONSTANTS
     Msgs,           \* commit messages (keys)
     Subject(_),     \* message -> its first line
     MaxCommits,     \* bound on the number of commits in one behaviour
+    InitEvents,     \* events executed before exploration starts (they are part of every emitted path)
     FreshContent,   \* "" = a new file may get any content; otherwise new files get exactly this content (smaller instances)
     ArgLists,       \* set of path-argument sequences used by add / rm / restore
     Cmds            \* event kinds enabled in this instance
@@ -287,11 +288,19 @@ UpdateRefEvents ==
 Events == EnvEvents \cup PathEvents \cup CommitEvents \cup ResetEvents \cup NameEvents \cup UpdateRefEvents
 
 ----------------------------------------------------------------------------
+(* the state after a fixed prefix of events (successful commits are counted for the commit ids) *)
+RECURSIVE RunPrefix(_, _, _)
+RunPrefix(s, n, evs) ==
+    IF Len(evs) = 0 THEN [st |-> s, nk |-> n]
+    ELSE LET r == Step(s, Head(evs), n) IN
+         RunPrefix(r.st, IF Head(evs).ev = "commit" /\ r.res = "ok" THEN n + 1 ELSE n, Tail(evs))
+InitState == RunPrefix(Seal(WithIdentity(Fresh)), 0, InitEvents)
+
 Init ==
-    /\ st = Seal(WithIdentity(Fresh))
+    /\ st = InitState.st
     /\ last = [ev |-> "init", cls |-> "cmd", res |-> "ok", dom |-> TRUE]
-    /\ nk = 0
-    /\ hist = <<>>
+    /\ nk = InitState.nk
+    /\ hist = InitEvents
 
 (* (r is an argument, not a LET: TLC evaluates an argument once but a LET definition at every reference) *)
 Apply(e, r) ==
